@@ -18,6 +18,7 @@ type hdProp struct {
 	minOps   int
 	directed func() []*hdCase
 	nontrivial func(c *hdCase, trace string) bool
+	extra      func(t *testing.T, env verifEnv, sink *caseSink) // further observations on the real code (reported as direct violations)
 }
 
 func hdHas(trace, needle string) bool { return strings.Contains(trace, needle) }
@@ -65,6 +66,9 @@ func hdRunProperty(t *testing.T, p hdProp) {
 			sink.count("nontrivial")
 		}
 		sink.add(hdCaseTerm(c, trace), c, nt, trace)
+	}
+	if p.extra != nil && env.replay == "" {
+		p.extra(t, env, sink)
 	}
 	sink.close(fmt.Sprintf("directed witnesses plus seeded hub histories biased towards %s, executed on the real Hub (real websockets, BackendServer, ClientSession, Room, VirtualSession) with the harness's event bus, fake backend and fake media server; compared step by step with coq/model/Hub.v and judged by the property's trace predicate; distinct = distinct traces", p.id))
 }
@@ -313,6 +317,7 @@ func TestVerifC07(t *testing.T) {
 	hdRunProperty(t, hdProp{id: "C07", quick: 110, thorough: 1100, minOps: 20,
 		opts: func(i int) hdGenOpts { return hdGenOpts{api: true, internal: i%2 == 0, media: i%4 == 0, limits: true, endings: true} },
 		nontrivial: func(c *hdCase, tr string) bool { return hdHas(tr, "OBye") || hdHas(tr, "OTick 40") || hdHas(tr, "SBye") },
+		extra:      hdStressLimit,
 		directed: func() []*hdCase {
 			base := []hdOp{{K: "connect", C: 1}, {K: "connect", C: 2}, {K: "connect", C: 3},
 				{K: "hello", C: 1, B: 0, U: 1}, {K: "hello", C: 2, B: 0, U: 2}, {K: "hello", C: 3, Ht: "internal", B: 0},
